@@ -99,9 +99,9 @@ mod string;
 #[cfg(test)]
 mod test;
 mod types;
-mod vertical;
 #[cfg(rustfmt_verif)]
 pub mod verif_hooks;
+mod vertical;
 pub(crate) mod visitor;
 
 /// The various errors that can occur during formatting. Note that not all of
